@@ -15,6 +15,10 @@ def handle (toks : List String) : String :=
   match toks with
   | "msg" :: ops => MsgOps.handle ops
   | "smtp" :: ops => SmtpOps.handle ops
+  | ["envaddr", a] =>
+    match decBytes a with
+    | some v => encBytes (GoMail.Smtp.envelopeAddress v)
+    | none => "bad-arg"
   | ["lb", chunks] =>
     match decList chunks with
     | some cs => encBytes (LineBreaker.close (LineBreaker.writeAll [] [] (by decide) cs))
